@@ -122,15 +122,19 @@ func genCone(rng *rand.Rand) *subject3 {
 	ref := g.RefCone{Tip: tip, Base: f.c, R: r}
 	s := &subject3{api: "model3d.Cone", tag: "Cone", sdf: lib, point: lib, normal: lib, solid: lib, ref: ref}
 	s.extra = coneAxisSlack(ref)
+	s.zoneKey = ".SDF/distance-near-axis"
 	return s
 }
 
 // coneAxisSlack: Cone.genericSDF picks the azimuth of the slant line with
-// safeNormal(p-Base, fallback, axis), which deliberately falls back to a
-// fixed azimuth when p-Base is within 1e-5 rad of the axis. Inside that
-// needle-shaped zone (but off the axis) the library measures the distance in
-// a rotated half plane, i.e. at a point at most 2*rho away; this coded
-// numerical guard is granted as extra tolerance instead of being reported.
+// safeNormal(p-Base, fallback, axis). p-Base is not orthogonal to the axis, so
+// the 1e-5 guard inside safeNormal replaces the azimuth by a fixed fallback
+// for every query within 1e-5 rad of the axis as seen from Base. Inside that
+// zone (off the axis) the library measures the distance in a rotated half
+// plane, i.e. at a point up to 2*rho away. This is reported ONCE, under
+// model3d.Cone.SDF/distance-near-axis (see FINDINGS.md); every other clause
+// and every field derived from a cone is granted 2*rho so that the same root
+// cause does not fire under ten keys.
 func coneAxisSlack(ref g.RefCone) func(p C3, refSD float64) float64 {
 	return func(p C3, refSD float64) float64 {
 		rho, _ := ref.Cyl(p)
@@ -192,6 +196,21 @@ func primitives3(r *vlib.Run) {
 	}
 }
 
+// baseAgrees builds the baseOK hook of a field derived from base: the base
+// library field must match the base reference at the query.
+func baseAgrees(base *subject3) func(p C3) bool {
+	base.init()
+	return func(p C3) bool {
+		want := base.ref.Eval(p).SD
+		got := base.sdf.SDF(p)
+		tol := relTol*math.Abs(want) + absTolK*(base.scale+g.MaxAbs3(p))
+		if base.extra != nil {
+			tol += base.extra(p, want)
+		}
+		return fin(got) && math.Abs(got-want) <= tol
+	}
+}
+
 // ---------------------------------------------------------------------------
 // collider-derived fields
 
@@ -211,7 +230,7 @@ func colliderDerived3(r *vlib.Run) {
 		}
 		s := &subject3{
 			api: "model3d.ColliderToSDF[" + gn.name + "]", tag: "ColliderToSDF." + gn.name,
-			sdf: model3d.ColliderToSDF(coll, iters), ref: base.ref, params: base.params, quiet: true,
+			sdf: model3d.ColliderToSDF(coll, iters), ref: base.ref, params: base.params, quiet: true, baseOK: baseAgrees(base),
 		}
 		s.params["iterations"] = fmt.Sprint(iters)
 		res := math.Pow(2, -float64(eff))
@@ -278,7 +297,7 @@ func transformDerived3(r *vlib.Run) {
 		baseExtra := base.extra
 		s := &subject3{
 			api: "model3d.TransformSDF[" + name + "]", tag: "TransformSDF." + name,
-			sdf: field, ref: base.ref, params: params, mapQuery: t.Apply, distScale: k, quiet: true,
+			sdf: field, ref: base.ref, params: params, mapQuery: t.Apply, distScale: k, quiet: true, baseOK: baseAgrees(base),
 		}
 		if baseExtra != nil {
 			s.extra = func(p C3, refSD float64) float64 { return k * baseExtra(p, refSD/k) }
@@ -288,9 +307,11 @@ func transformDerived3(r *vlib.Run) {
 		runSubject3(c, s, 12)
 		// (b) own model of translate/scale
 		if own != nil {
-			s2 := &subject3{api: s.api, tag: s.tag + ".ownmodel", sdf: field, ref: *own, params: params, quiet: true}
+			inner := *own
+			ok := baseAgrees(base)
+			s2 := &subject3{api: s.api, tag: s.tag + ".ownmodel", sdf: field, ref: *own, params: params, quiet: true,
+				baseOK: func(p C3) bool { return ok(g.Scale3(g.Sub3(p, inner.Shift), 1/inner.Scale)) }}
 			if baseExtra != nil {
-				inner := *own
 				s2.extra = func(p C3, refSD float64) float64 {
 					q := g.Scale3(g.Sub3(p, inner.Shift), 1/inner.Scale)
 					return k * baseExtra(q, refSD/k)
